@@ -409,23 +409,25 @@ func runC20_3(c *core.Ctx) {
 				uses = append(uses, u)
 				return true
 			case *ast.AssignStmt:
-				if !isWriter || len(x.Lhs) != 1 || len(x.Rhs) != 1 {
+				if !isWriter || len(x.Lhs) != len(x.Rhs) {
 					return true
 				}
-				lo, hi, ok := rangeOf(x.Lhs[0])
-				if !ok || hi-lo != 1 {
-					return true
-				}
-				u := gfdUse{lo: lo, hi: hi, width: 1, order: "byte", pos: x.Pos(), writer: true, fn: fname}
-				ast.Inspect(x.Rhs[0], func(y ast.Node) bool {
-					if id, ok := y.(*ast.Ident); ok {
-						if r, ok := roleOfParam[id.Name]; ok {
-							u.field = r
-						}
+				for k := range x.Lhs { // gfd[0] = byte(i), also as one half of gfd[0], gfd[1] = byte(i), byte(r)
+					lo, hi, ok := rangeOf(x.Lhs[k])
+					if !ok || hi-lo != 1 {
+						continue
 					}
-					return true
-				})
-				uses = append(uses, u)
+					u := gfdUse{lo: lo, hi: hi, width: 1, order: "byte", pos: x.Pos(), writer: true, fn: fname}
+					ast.Inspect(x.Rhs[k], func(y ast.Node) bool {
+						if id, ok := y.(*ast.Ident); ok {
+							if r, ok := roleOfParam[id.Name]; ok {
+								u.field = r
+							}
+						}
+						return true
+					})
+					uses = append(uses, u)
+				}
 			case *ast.IndexExpr:
 				if !isReader {
 					return true
